@@ -55,24 +55,33 @@ def _table(ctx, hb, quick):
     return tb, ts
 
 def _portfwd(ctx, hb, quick):
-    """the reverse port forward relay (PortFwd.tla): agent <-> target, both directions, closes from either side"""
+    """the reverse port forward relay (PortFwd.tla): agent <-> target, both directions, closes from either side;
+    once as the code runs by itself (the reader goroutine acts at once), once with the reader held at its hook point so
+    that TLC's interleavings of its turns with callbacks, check-ins and the target are the schedule"""
+    import random
     core.design_check(ctx, "PortFwd.tla", "PortFwd.cfg", timeout=900)
-    pb = core.generate(ctx, "Gen_PortFwd.tla", "Gen_PortFwd_bfs.cfg", 0, 0, ctx.seed, bfs=True, timeout=600)
-    if quick:
-        import random
-        random.Random(ctx.seed).shuffle(pb); pb = pb[:320]
-    pb += core.generate(ctx, "Gen_PortFwd.tla", "Gen_PortFwd.cfg", 120 if quick else 1500, 40, ctx.seed, timeout=600)
-    ctx.say("  port forward histories: %d" % len(pb))
-    trace, ps = core.run_harness(ctx, hb, "portfwd", pb, "portfwd", timeout=3000)
-    for inc in ps["incidents"]:
-        core.report(ctx, {"check": "replay", "kind": inc["kind"], "site": inc["site"]}, inc)
-    v = core.validate_traces(ctx, "Trace_PortFwd.tla", "Trace_PortFwd_strict.cfg", "Trace_PortFwd_mon.cfg", trace, "portfwd", timeout=3000)
-    for x in v["violations"]:
-        evs = [json.loads(l) for l in x["lines"]]
-        ev = evs[x["event"] - 1] if 0 < x["event"] <= len(evs) else {}
-        prev = [e.get("ev") for e in evs[max(0, x["event"] - 3):x["event"] - 1]]
-        core.report(ctx, {"check": "Mon_PortFwd", "invariant": x["invariant"], "op": ev.get("ev", "?"), "after": prev[-1] if prev else ""}, {"events": evs, "failing_event": x["event"]})
-    return pb, ps
+    allb, summ = [], {"behaviours": 0, "counters": {}}
+    for mode, bfs_cfg, walk_cfg in (("", "Gen_PortFwd_bfs.cfg", "Gen_PortFwd.cfg"), ("gated", "Gen_PortFwd_gated_bfs.cfg", "Gen_PortFwd_gated.cfg")):
+        pb = core.generate(ctx, "Gen_PortFwd.tla", bfs_cfg, 0, 0, ctx.seed, bfs=True, timeout=600)
+        if quick:
+            random.Random(ctx.seed).shuffle(pb); pb = pb[:240]
+        pb += core.generate(ctx, "Gen_PortFwd.tla", walk_cfg, 120 if quick else 1500, 60, ctx.seed, timeout=600)
+        ctx.say("  port forward histories (%s): %d" % (mode or "free-running reader", len(pb)))
+        name = "portfwd" + mode
+        trace, ps = core.run_harness(ctx, hb, "portfwd", pb, name, timeout=3000, mode=mode)
+        for inc in ps["incidents"]:
+            core.report(ctx, {"check": "replay", "kind": inc["kind"], "site": inc["site"]}, inc)
+        v = core.validate_traces(ctx, "Trace_PortFwd.tla", "Trace_PortFwd_strict.cfg", "Trace_PortFwd_mon.cfg", trace, name, timeout=3000)
+        for x in v["violations"]:
+            evs = [json.loads(l) for l in x["lines"]]
+            ev = evs[x["event"] - 1] if 0 < x["event"] <= len(evs) else {}
+            prev = [e.get("ev") for e in evs[max(0, x["event"] - 3):x["event"] - 1]]
+            core.report(ctx, {"check": "Mon_PortFwd", "invariant": x["invariant"], "op": ev.get("ev", "?"), "after": prev[-1] if prev else "", "gated": mode == "gated"}, {"events": evs, "failing_event": x["event"]})
+        allb += pb
+        summ["behaviours"] += ps["behaviours"]
+        for k, n in ps["counters"].items():
+            summ["counters"][(mode or "free") + "." + k] = n
+    return allb, summ
 
 _run = run
 def run(ctx):
